@@ -15,7 +15,8 @@ from harness import runs, runcommon
 from harness.drive import f2b
 
 ID = "C17"
-THEOREM_MODULES = ["JF.Props.C17", "JF.Props.C17Float"]
+THEOREM_MODULES = ["JF.Props.C17", "JF.Props.C17Float", "JF.Props.SystemInv"]
+NEEDS_GEN = True
 COMPONENTS = ["time"]
 ASSUMPTIONS = ["theorems are the exact (rational) reading: t_k = k*interval, sample count = #{k | t_k < T_end}, sampled out-state fully "
                "time-sliced; the float statement 'one rounding of the remainder per step' is C14's and is measured here by the oracle",
